@@ -917,4 +917,234 @@ theorem struct_appendObject_fresh {h : Heap} (hs : Struct h) (n value : Nat) (hn
   simp only [hio, Bool.not_true, Bool.false_eq_true, if_false, e]
   exact ⟨hsb.mark (by simp [attachObj]; exact hn), trivial⟩
 
+
+/-! ### AppendArray -/
+theorem nodup_subset_length {α : Type} [DecidableEq α] : ∀ (l1 l2 : List α), l1.Nodup → (∀ x ∈ l1, x ∈ l2) → l1.length ≤ l2.length
+  | [], _, _, _ => Nat.zero_le _
+  | a :: t, l2, hn, hs => by
+    have ha : a ∈ l2 := hs a (by simp)
+    have hnt := (List.nodup_cons.mp hn)
+    have hsub : ∀ x ∈ t, x ∈ l2.erase a := by
+      intro x hx
+      have hxa : x ≠ a := by intro e; subst e; exact hnt.1 hx
+      exact (List.mem_erase_of_ne hxa).mpr (hs x (by simp [hx]))
+    have := nodup_subset_length t (l2.erase a) hnt.2 hsub
+    rw [List.length_erase_of_mem ha] at this
+    have hpos : 0 < l2.length := List.length_pos_of_mem ha
+    simp only [List.length_cons]; omega
+
+theorem range_itoa_nodup (n : Nat) : ((List.range n).map itoa).Nodup := by
+  induction n with
+  | zero => simp
+  | succ n ih =>
+    rw [List.range_succ, List.map_append, List.nodup_append]
+    refine ⟨ih, by simp, ?_⟩
+    intro a ha b hb e
+    obtain ⟨i, hi, he⟩ := List.mem_map.mp ha
+    have hb' : b = itoa n := by simpa using hb
+    subst he; subst hb'
+    have := itoa_inj e
+    simp at hi; omega
+
+/-- in a map whose keys cover "0" … "len-1" the next index is a fresh key -/
+theorem array_next_fresh (m : ChildMap) (hdense : ∀ i : Nat, i < m.length → (m.lookup (itoa i)).isSome = true) :
+    m.lookup (itoa m.length) = none := by
+  cases hl : m.lookup (itoa m.length) with
+  | none => rfl
+  | some c =>
+    exfalso
+    have hsub : ∀ x ∈ (List.range (m.length + 1)).map itoa, x ∈ m.keys := by
+      intro x hx
+      obtain ⟨i, hi, he⟩ := List.mem_map.mp hx
+      have hi' : i < m.length + 1 := List.mem_range.mp hi
+      subst he
+      by_cases hlt : i < m.length
+      · obtain ⟨c', hc'⟩ := Option.isSome_iff_exists.mp (hdense i hlt)
+        exact mem_keys_of_lookup _ _ _ hc'
+      · have : i = m.length := by omega
+        rw [this]; exact mem_keys_of_lookup _ _ _ hl
+    have := nodup_subset_length _ _ (range_itoa_nodup _) hsub
+    simp [ChildMap.keys] at this
+    omega
+
+/-- `appendNode(nil, value)` on an array once `value` is detached -/
+def attachArr (h : Heap) (n value : Id) : Heap :=
+  (((h.modify value (fun r => { r with parent := some n, key := none })).modify n (fun r => { r with cache := none })).modify value
+    (fun r => { r with index := some (h.childMap n).length })).modify n
+    (fun r => { r with children := some ((r.children.getD []).insert (itoa (h.childMap n).length) value) })
+
+theorem struct_attachArr {h : Heap} (n value : Nat) (hs : StructBut h n) (hn : n < h.size) (hv : value < h.size) (hvn : value ≠ n)
+    (hroot : (h.get value).parent = none) (harr : (h.get n).type = .array) : StructBut (attachArr h n value) n := by
+  have okn := hs n hn
+  have hfresh := array_next_fresh (h.childMap n) (okn.dense harr)
+  have hget : ∀ m : Nat, (attachArr h n value).get m =
+      if m = n then { h.get n with cache := none, children := some ((h.childMap n).insert (itoa (h.childMap n).length) value) }
+      else if m = value then { h.get value with parent := some n, key := none, index := some (h.childMap n).length } else h.get m := by
+    intro m
+    unfold attachArr
+    by_cases hmn : m = n
+    · subst hmn
+      rw [get_modify]; simp only [size_modify, hn, and_self, if_true]
+      rw [get_modify_other _ _ _ _ (Ne.symm hvn)]
+      rw [get_modify]; simp only [size_modify, hn, and_self, if_true]
+      rw [get_modify_other _ _ _ _ (Ne.symm hvn)]
+      simp [childMap]
+    · rw [get_modify_other _ _ _ _ hmn]
+      simp only [hmn, if_false]
+      by_cases hmv : m = value
+      · subst hmv
+        rw [get_modify]; simp only [size_modify, hv, and_self, if_true]
+        rw [get_modify_other _ _ _ _ hmn]
+        rw [get_modify]; simp [hv]
+      · rw [get_modify_other _ _ _ _ hmv, get_modify_other _ _ _ _ hmn, get_modify_other _ _ _ _ hmv]; simp [hmv]
+  have hsize : (attachArr h n value).size = h.size := by simp [attachArr]
+  have hcmn : (attachArr h n value).childMap n = h.childMap n ++ [(itoa (h.childMap n).length, (value : Id))] := by
+    unfold childMap; rw [hget n]; simp only [if_true, Option.getD_some]
+    exact insert_fresh _ _ _ hfresh
+  have hcm : ∀ m : Nat, m ≠ n → (attachArr h n value).childMap m = h.childMap m := by
+    intro m hm
+    unfold childMap; rw [hget m]; simp only [hm, if_false]
+    split
+    · rename_i e; rw [e]
+    · rfl
+  have hfld : ∀ m : Nat, ((attachArr h n value).get m).type = (h.get m).type ∧ ((attachArr h n value).get m).dirty = (h.get m).dirty ∧
+      ((attachArr h n value).get m).data = (h.get m).data ∧ ((attachArr h n value).get m).b1 = (h.get m).b1 ∧
+      (m ≠ value → ((attachArr h n value).get m).parent = (h.get m).parent ∧ ((attachArr h n value).get m).key = (h.get m).key ∧
+        ((attachArr h n value).get m).index = (h.get m).index) := by
+    intro m
+    rw [hget m]
+    split
+    · rename_i e; subst e; simp
+    · split
+      · rename_i e; subst e; simp
+      · simp
+  have hvrec : ((attachArr h n value).get value).parent = some n ∧ ((attachArr h n value).get value).index = some (h.childMap n).length := by
+    rw [hget value]; simp [hvn]
+  have hnokid : ∀ p : Nat, p < h.size → ∀ kc ∈ h.childMap p, (kc.2 : Nat) ≠ value := by
+    intro p hp kc hkc e
+    have := ((hs p hp).kids kc hkc).2.2.1
+    rw [e, hroot] at this; cases this
+  intro p hp
+  rw [hsize] at hp
+  have ok := hs p hp
+  obtain ⟨f1, f2, f4, f5, f6⟩ := hfld p
+  have hkidsOld : ∀ kc ∈ h.childMap p, (kc.2 : Nat) < (attachArr h n value).size ∧ (kc.2 : Nat) ≠ p ∧
+      ((attachArr h n value).get kc.2).parent = some p ∧ PosOK (attachArr h n value) p kc := by
+    intro kc hkc
+    obtain ⟨a, b, c, e⟩ := ok.kids kc hkc
+    have hkv := hnokid p hp kc hkc
+    obtain ⟨g1, _, _, _, g6⟩ := hfld kc.2
+    refine ⟨by rw [hsize]; exact a, b, by rw [(g6 hkv).1]; exact c, ?_⟩
+    unfold PosOK at e ⊢; rw [f1, (g6 hkv).2.1, (g6 hkv).2.2]; exact e
+  by_cases hpn : p = n
+  · subst hpn
+    refine ⟨?_, ?_, ?_, ?_, ?_, fun hne => absurd rfl hne⟩
+    · intro kc hkc
+      rw [hcmn, List.mem_append] at hkc
+      rcases hkc with hkc | hkc
+      · exact hkidsOld kc hkc
+      · have : kc = (itoa (h.childMap p).length, (value : Id)) := by simpa using hkc
+        subst this
+        refine ⟨by rw [hsize]; exact hv, hvn, hvrec.1, ?_⟩
+        unfold PosOK; rw [f1, harr]; simp [hvrec.2]
+    · rw [hcmn]
+      simp only [ChildMap.keys, List.map_append, List.map_cons, List.map_nil]
+      rw [List.nodup_append]
+      refine ⟨ok.nodup, by simp, ?_⟩
+      intro a ha b hb
+      have : b = itoa (h.childMap p).length := by simpa using hb
+      subst this
+      intro e; subst e
+      exact not_mem_keys_of_lookup_none _ _ hfresh ha
+    · intro _ i hi
+      rw [hcmn] at hi ⊢
+      simp only [List.length_append, List.length_cons, List.length_nil] at hi
+      rw [lookup_append_single]
+      by_cases hlt : i < (h.childMap p).length
+      · obtain ⟨c, hc⟩ := Option.isSome_iff_exists.mp (ok.dense harr i hlt)
+        rw [hc]; rfl
+      · have : i = (h.childMap p).length := by omega
+        subst this
+        rw [hfresh]; simp
+    · rw [f1, harr]; simp only [NType.isContainer, if_true]
+      rw [hget p]; simp
+    · intro q hq
+      rw [(f6 (Ne.symm hvn)).1] at hq
+      obtain ⟨a, b, c, e⟩ := ok.par q hq
+      have hqp : q ≠ p := by
+        intro e'; subst e'
+        obtain ⟨kc, hkc, he⟩ := List.mem_map.mp c
+        exact (ok.kids kc hkc).2.1 he
+      obtain ⟨g1, g2, _⟩ := hfld q
+      exact ⟨by rw [hsize]; exact a, by rw [g1]; exact b, by rw [hcm q hqp]; exact c, fun hd => by rw [g2]; exact e (by rw [← f2]; exact hd)⟩
+  · have hshape : if ((attachArr h n value).get p).type.isContainer = true then ((attachArr h n value).get p).children.isSome = true
+        else (attachArr h n value).childMap p = [] := by
+      rw [hcm p hpn, f1]
+      have := ok.shape
+      by_cases hc : (h.get p).type.isContainer = true
+      · simp only [hc, if_true] at this ⊢
+        rw [hget p]; simp only [hpn, if_false]
+        split
+        · rename_i e; subst e; exact this
+        · exact this
+      · simp only [hc, Bool.false_eq_true, if_false] at this ⊢; exact this
+    have hclean : p ≠ n → ((attachArr h n value).get p).dirty = false → ((attachArr h n value).get p).data.isSome = true ∧
+        ((attachArr h n value).get p).b1 ≠ 0 ∧ ∀ kc ∈ (attachArr h n value).childMap p, ((attachArr h n value).get kc.2).dirty = false := by
+      intro _ hcl
+      rw [f2] at hcl
+      obtain ⟨a, b, c⟩ := ok.clean hpn hcl
+      refine ⟨by rw [f4]; exact a, by rw [f5]; exact b, ?_⟩
+      intro kc hkc
+      rw [hcm p hpn] at hkc
+      rw [(hfld kc.2).2.1]; exact c kc hkc
+    refine ⟨by rw [hcm p hpn]; exact hkidsOld, by rw [hcm p hpn]; exact ok.nodup, by rw [hcm p hpn, f1]; exact ok.dense, hshape, ?_, hclean⟩
+    intro q hq
+    by_cases hpv : p = value
+    · subst hpv
+      rw [hvrec.1] at hq
+      cases hq
+      refine ⟨by rw [hsize]; exact hn, by rw [(hfld n).1, harr]; rfl, ?_, fun _ => Or.inr rfl⟩
+      rw [hcmn]; simp [ChildMap.vals]
+    · rw [(f6 hpv).1] at hq
+      obtain ⟨a, b, c, e⟩ := ok.par q hq
+      obtain ⟨g1, g2, _⟩ := hfld q
+      refine ⟨by rw [hsize]; exact a, by rw [g1]; exact b, ?_, fun hd => by rw [g2]; exact e (by rw [← f2]; exact hd)⟩
+      by_cases hqn : q = n
+      · subst hqn
+        rw [hcmn]; simp only [ChildMap.vals, List.map_append, List.mem_append]
+        left; exact c
+      · rw [hcm q hqn]; exact c
+
+/-- **AppendArray of a detached node preserves the invariant** -/
+theorem struct_appendArray_one {h : Heap} (hs : Struct h) (n value : Nat) (hn : n < h.size) (hv : value < h.size)
+    (harr : (h.get n).type = .array) (hloop : h.isParentOrSelfNode n value = false) (hroot : (h.get value).parent = none) :
+    Struct (h.appendArray n [value]).1 ∧ (h.appendArray n [value]).2 = .ok () := by
+  have hvn : value ≠ n := by
+    intro e; subst e
+    simp [isParentOrSelfNode] at hloop
+  have hia : h.isArray n = true := by simp [isArray, typeOf, harr]
+  obtain ⟨m, hm⟩ := Option.isSome_iff_exists.mp (by have := (hs n hn).shape; rw [harr] at this; simpa [NType.isContainer] using this)
+  have hlen : m.length = (h.childMap n).length := by unfold childMap; rw [hm]; rfl
+  have e : h.appendNode n none value = (attachArr h n value, .ok ()) := by
+    unfold Heap.appendNode
+    simp only [hloop, Bool.false_eq_true, if_false, hroot]
+    have hch3 : (((h.modify value (fun r => { r with parent := some n, key := none })).modify n (fun r => { r with cache := none })).get n).children
+        = some m := by
+      rw [get_modify]; simp only [size_modify, hn, and_self, if_true]
+      rw [get_modify_other _ _ _ _ (Ne.symm hvn)]; exact hm
+    simp only [hch3]
+    unfold attachArr
+    rw [hlen]
+    congr 1
+    apply modify_congr
+    have : (((((h.modify value (fun r => { r with parent := some n, key := none })).modify n (fun r => { r with cache := none })).modify value
+        (fun r => { r with index := some (h.childMap n).length })).get n).children) = some m := by
+      rw [get_modify_other _ _ _ _ (Ne.symm hvn)]; exact hch3
+    simp only [this, Option.getD_some]
+  have hsb := struct_attachArr n value (hs.toBut n) hn hv hvn hroot harr
+  have hany : ([value].any (fun c => h.isParentOrSelfNode n c)) = false := by simp [hloop]
+  unfold Heap.appendArray
+  simp only [hia, Bool.not_true, Bool.false_eq_true, if_false, hany, List.map_cons, List.map_nil, Heap.appendAll, e]
+  exact ⟨hsb.mark (by simp [attachArr]; exact hn), trivial⟩
+
 end Ajson.Proofs
